@@ -8,9 +8,9 @@ scratch=$(mktemp -d /tmp/pvm.XXXXXX)
 trap 'rm -rf "$scratch"' EXIT
 rsync -a --exclude .git --exclude client/docs /repo/ "$scratch/"
 ( cd "$scratch" && patch -p1 -s --no-backup-if-mismatch < "$patch" ) || { echo "PATCH-FAILED $patch"; exit 3; }
-( cd "$scratch" && go build ./... 2>&1 | head -5 ) | grep -q . && { echo "NOCOMPILE $patch"; ( cd "$scratch" && go build ./... 2>&1 | head -5 ); exit 4; }
+( cd "$scratch" && go build -trimpath ./... 2>&1 | head -5 ) | grep -q . && { echo "NOCOMPILE $patch"; ( cd "$scratch" && go build -trimpath ./... 2>&1 | head -5 ); exit 4; }
 if [ -n "$runtests" ]; then
-  ( cd "$scratch" && go test -vet=off -count=1 ./... 2>&1 | grep -E '^(FAIL|---)' | head -5 )
+  ( cd "$scratch" && go test -trimpath -vet=off -count=1 ./... 2>&1 | grep -E '^(FAIL|---)' | head -5 )
 fi
 mkdir -p "$scratch/.verif"; cp /verif/known_findings.json "$scratch/.verif/"
 "${PVERIF_BIN:-/verif/bin/pverif}" check "$ids" --repo "$scratch" --verif "$scratch/.verif" > "$scratch/.out" 2>&1; rc=$?
